@@ -93,7 +93,17 @@ def _frame(rng, n, allow_inf):
         "b": np.array([rng.random() < 0.4 for _ in range(n)], dtype=bool),
         "t": pd.to_datetime([t0 + pd.Timedelta(days=rng.randint(0, 500), hours=rng.randint(0, 23)) for _ in range(n)]),
     }
-    return pd.DataFrame(data)
+    if n >= 2 and rng.random() < 0.2:
+        # a run of rows in which a numeric column is missing altogether (a file from the days before the column existed):
+        # chunking along the run gives a partial result that has entries but has seen no number
+        a_ = rng.randrange(n)
+        b_ = min(n, a_ + rng.randint(1, max(1, n // 2)))
+        data[rng.choice(["x", "y"])][a_:b_] = float("nan")
+        data["_nan_run"] = (a_, b_)
+    run = data.pop("_nan_run", None)
+    df = pd.DataFrame(data)
+    df.attrs["nan_run"] = run
+    return df
 
 
 def _gen_spec(rng, last):
@@ -316,6 +326,8 @@ def run_case(i, rng, tier):
     bounds = [0] + cuts + [n]
     if n >= 3 and rng.random() < 0.3:
         bounds = sorted(set([0, 1, n - 1, n]))
+    if df.attrs.get("nan_run") and rng.random() < 0.7:
+        bounds = sorted(set([0, n] + list(df.attrs["nan_run"])))
     parts = []
     for a, b in zip(bounds, bounds[1:]):
         if a == b:
